@@ -196,3 +196,40 @@ package message
 //@   nopanic
 //@   pure
 //@   ensures result == ctxstr(ctx, publishTopicKey)
+
+// ---- router wiring (C08) ----
+
+//@ type Router
+//@   self r
+//@   monitor handlersLock guards handlers
+//@   monitor closedLock guards closed
+//@   invariant r.handlers != nil [mon:handlersLock:handlers-map-exists]
+
+//@ func (*Router).AddHandler
+//@   ghost label ADDH
+//@   ghost atomic
+//@   requires r != nil && r.handlersLock != nil && r.handlersWg != nil && r.handlers != nil
+//@   panics-when has(r.handlers, handlerName) [duplicate-name-panics]
+//@   ensures result != nil && fresh(result) && result.router == r && result.handler != nil && fresh(result.handler) [new-handler-record]
+//@   ensures has(r.handlers, handlerName) && r.handlers[handlerName] == result.handler [registered-under-its-name]
+//@   ensures forall k string :: k != handlerName ==> has(r.handlers, k) == old(has(r.handlers, k)) && r.handlers[k] == old(r.handlers[k]) [other-handlers-untouched]
+//@   ensures result.handler.name == handlerName && result.handler.subscriber == subscriber && result.handler.subscribeTopic == subscribeTopic && result.handler.publisher == publisher && result.handler.publishTopic == publishTopic && result.handler.handlerFunc == handlerFunc [record-holds-exactly-the-arguments]
+//@   ensures result.handler.publisherName == structName(publisher) && result.handler.subscriberName == structName(subscriber) [type-names-recorded]
+//@   ensures result.handler.runningHandlersWg == r.runningHandlersWg && result.handler.runningHandlersWgLock == r.runningHandlersWgLock && result.handler.routersCloseCh == r.closingInProgressCh && result.handler.logger == r.logger [shares-the-routers-close-machinery]
+//@   ensures !result.handler.started && result.handler.messagesCh == nil && result.handler.startedCh != nil && fresh(result.handler.startedCh) && !closed(result.handler.startedCh) && result.handler.stopFn == nil && result.handler.stopped == nil [not-started-yet]
+//@   ensures wgtoken(r.handlersWg) == old(wgtoken(r.handlersWg)) + 1 [one-more-handler-to-wait-for]
+//@   modifies map(r.handlers), wg(r.handlersWg)
+
+//@ func (*Router).AddNoPublisherHandler$1
+//@   requires handlerFunc != nil
+//@   callee NPH = handlerFunc
+//@   ensures calls(NPH) == old(calls(NPH)) + 1 && arg(NPH, 0, old(calls(NPH))) == msg [calls-the-wrapped-function-once-with-the-message]
+//@   ensures result0 == nil && result1 == ret(NPH, 0, old(calls(NPH))) [no-outputs-error-passed-through]
+//@   panics-ensures panicked(NPH, old(calls(NPH)))
+
+//@ func (*Router).AddNoPublisherHandler
+//@   requires r != nil && r.handlersLock != nil && r.handlersWg != nil && r.handlers != nil
+//@   ensures result != nil && result.handler != nil && has(r.handlers, handlerName) && r.handlers[handlerName] == result.handler [registered-under-its-name]
+//@   ensures result.handler.name == handlerName && result.handler.subscriber == subscriber && result.handler.subscribeTopic == subscribeTopic && result.handler.publishTopic == "" && hasdyntype(result.handler.publisher, "message.disabledPublisher") [no-publish-topic-and-a-publisher-that-refuses]
+//@   ensures isclosure(result.handler.handlerFunc, "message.(*Router).AddNoPublisherHandler$1") && closurevar(result.handler.handlerFunc, 0) == handlerFunc [adapter-around-the-given-function]
+//@   modifies map(r.handlers), wg(r.handlersWg)
